@@ -27,8 +27,7 @@ def r2_gates(run, tree):
 
 def r3_equality(run, tree):
     run.rule("C20.R3", "equality quantifier: equal iff same keys and no element of any member differs",
-             "D7 abstract cases + fold of the Datagroup class itself over insertion orders and key sets", "", floor=18)
-    dg.check_eq_quantifier(run, tree)
+             "D7 fold of the Datagroup class itself over insertion orders, key sets and difference patterns (none / some / all elements; Vector members)", "", floor=16)
     cf.check_group_equality(run, tree)
 
 
